@@ -31,6 +31,7 @@ RULE = (
     "order (precedence order) per option and module with the reference. Non-trivial = at least two layers set the "
     "queried option with different values or the path matches at least two overrides (distinct by "
     "stack hash, option, path); invalid stacks count as non-trivial per (kind, location)."
+    ' The command-line layer is also passed as real flags to `--display-options` (-e/-d, --x/--no-x, --x N, repeated --x item) including falsy values; exhaustive command-line lattice through the visitor and CLI routes.'
 )
 ASSUMPTIONS = [
     "TOML files are written with a small emitter (inline tables for overrides so key order can vary); tomli is trusted",
